@@ -1,8 +1,9 @@
-(* C03 - A datum never moves (part a; part b, one size and alignment for all generated record
-   types, is in C03b.v once the generator model is in place). *)
+(* C03 - A datum never moves (part a); all record types of a definition have one size and alignment (part b:
+   the generator gives every buffer-holding struct the same `repr(align)` and the same single field - C03b below;
+   that rustc then gives them one size and alignment is rustc's, executed by E3 at 4 capacities). *)
 From Coq Require Import List NArith Lia.
-From Truc.Model Require Import Layout Builder.
-From Truc.Proofs Require Import Variants BuilderInv LayoutThms.
+From Truc.Model Require Import Layout Builder Ir Gen.
+From Truc.Proofs Require Import Variants BuilderInv LayoutThms GenP.
 Import ListNotations.
 Open Scope N_scope.
 
@@ -34,3 +35,16 @@ Proof.
   split; [|split; [|vm_compute; auto]]; repeat (constructor; try (simpl; try lia; unfold native; tauto)).
 Qed.
 Print Assumptions C03a_nonvacuous.
+
+(* part b, on the generator model: a generated module has exactly one buffer struct per variant plus
+   RecordUninitialized, and every one of them carries the definition-wide alignment max_type_align -
+   whatever data the individual variant holds *)
+Theorem C03b : forall d cfg items, gen d cfg = Some items ->
+  struct_aligns items = repeat (max_type_align d) (S (length (snd d))).
+Proof. exact gen_one_alignment. Qed.
+Print Assumptions C03b.
+
+Example C03b_nonvacuous :
+  let b := run [Add 0 0 8 8 false; Add 1 1 4 4 false; Close SSimple; Remove 0%nat; Close SSimple] in
+  option_map struct_aligns (gen (b_ds b, b_vs b) []) = Some [8; 8; 8].
+Proof. vm_compute. reflexivity. Qed.
